@@ -1,7 +1,17 @@
 import props
 
+
+
+def runs(tier, seed, replay):
+    if replay:
+        return props.replay_run(replay)
+    base = props.simple("c19", 1500, 4000)(tier, seed, None)
+    # CLI glue (the binary's subcommands against the library; see bin/propcfg/C02.py)
+    return base + [{"args": ["cli", "--seed", str(seed), "--tier", tier, "--count", "1500" if tier == "thorough" else "150"]}]
+
+
 CONFIG = {
-    "runs": props.simple("c19", 1500, 4000),
+    "runs": runs,
     "status": "full (for WF C n, all_reachable C, 2 <= n, to_cnf C n = Ok F; arbitrary size, sharing, single-child and n-ary nodes): "
               "C19_sound (every satisfying assignment of the CNF restricted to 1..n is a model of the d-DNNF), "
               "C19_extension_exists_unique (every model extends to a satisfying assignment, unique on all declared variables), "
